@@ -63,7 +63,7 @@ def _merge(segs):
     return out
 
 
-def minimise(spec, kind, evaluate, max_cands=300, max_s=60.0, log=None):
+def minimise(spec, kind, evaluate, max_cands=600, max_s=90.0, log=None):
     """Returns (smaller_spec, stats).  `evaluate(spec) -> (viols, result, info)`."""
     bud = Budget(max_cands, max_s)
     best = copy.deepcopy(spec)
@@ -156,21 +156,39 @@ def minimise(spec, kind, evaluate, max_cands=300, max_s=60.0, log=None):
                         else:
                             j += chunk
                     chunk //= 2
-        # 5. schedule
-        if len(best["actors"]) > 1 and bud.ok():
+        # 5. schedule: sequential? else shortest failing prefix (the rest falls
+        #    back to run-to-completion), then ddmin over chunks of segments
+        if len(best["actors"]) > 1 and bud.ok() and (best.get("schedule") or []):
             cand = copy.deepcopy(best)
             cand["schedule"] = []
-            if not attempt(cand):
-                j = 0
-                while j < len(best.get("schedule") or []) and bud.ok():
-                    segs = best["schedule"]
+            if attempt(cand):
+                progress = True
+            else:
+                lo, hi = 0, len(best["schedule"])  # prefix of length hi fails
+                while hi - lo > 1 and bud.ok():
+                    mid = (lo + hi) // 2
                     cand = copy.deepcopy(best)
-                    cand["schedule"] = _merge(segs[:j] + segs[j + 1:])
-                    if _size(cand) < _size(best) and attempt(cand):
+                    cand["schedule"] = best["schedule"][:mid]
+                    # fails() re-records the executed schedule: the prefix plus
+                    # at most one run-to-completion segment per actor
+                    if fails(cand) and _size(cand) < _size(best):
+                        best = cand
+                        hi = min(mid, len(best["schedule"]))
                         progress = True
                     else:
-                        j += 1
-            else:
-                progress = True
+                        lo = mid
+                chunk = max(1, len(best["schedule"]) // 2)
+                while chunk >= 1 and bud.ok():
+                    j = 0
+                    while j < len(best.get("schedule") or []) and bud.ok():
+                        segs = best["schedule"]
+                        cand = copy.deepcopy(best)
+                        cand["schedule"] = _merge(segs[:j] + segs[j + chunk:])
+                        if fails(cand) and _size(cand) < _size(best):
+                            best = cand
+                            progress = True
+                        else:
+                            j += chunk
+                    chunk //= 2
     stats = {"candidates": bud.tried, "size_before": _size(spec), "size_after": _size(best)}
     return best, stats
